@@ -86,6 +86,14 @@ func NewFileWriterWithName(filePath string, maxBlockSize int, swampName string) 
 // If swampName is set, creates a V3 file with the name stored after the header.
 // Otherwise creates a V3 file with NameLength=0.
 func (fw *FileWriter) createNewFile() error {
+	// NameLength is a uint16: a longer name would be written in full after a header
+	// that says 0 (65536) or a few bytes, and every reader would then take the name
+	// bytes for block data. Refuse it before anything is created on disk.
+	nameBytes := []byte(fw.swampName)
+	if len(nameBytes) > math.MaxUint16 {
+		return ErrNameTooLong
+	}
+
 	file, err := os.Create(fw.filePath)
 	if err != nil {
 		return err
@@ -95,7 +103,6 @@ func (fw *FileWriter) createNewFile() error {
 	fw.header = NewFileHeader()
 
 	// V3: store swamp name length in header
-	nameBytes := []byte(fw.swampName)
 	fw.header.NameLength = uint16(len(nameBytes))
 
 	// Write header
